@@ -10,6 +10,20 @@ Proof.
   intros H. unfold centre. rewrite (W_split cs l u H), inject_Z_plus. q2. lra.
 Qed.
 
+(* the weight attributed to the sample at min / max: min(1, w/2) *)
+Definition atm (c : centroid) : Q := fmin (c_w c / 2) 1.
+
+Lemma atm_bounds c : 1 # 2 <= atm c /\ atm c <= 1 /\ atm c <= c_w c / 2.
+Proof.
+  unfold atm, fmin. pose proof (c_w_ge1 c) as H. destruct (Qltb 1 (c_w c / 2)) eqn:E; qb E; q2; repeat split; lra.
+Qed.
+
+Lemma atm_heavy c : 1 < c_w c -> atm c == 1.
+Proof.
+  intros H. apply c_w_gt1 in H. apply c_w_ge2 in H. unfold atm, fmin.
+  destruct (Qltb 1 (c_w c / 2)) eqn:E; qb E; q2; lra.
+Qed.
+
 Section Rank.
 Variable v : view.
 Hypothesis Hwf : wf_view v.
@@ -107,10 +121,12 @@ Inductive rank_case (x r : Q) : Prop :=
 | RC_single : v_min v <= x -> x <= v_max v -> n = 1%nat -> r == 1 # 2 -> rank_case x r
 | RC_left t : (2 <= n)%nat -> v_min v <= x -> x < m 0 ->
     t * (m 0 - v_min v) == x - v_min v -> 0 <= t -> t < 1 ->
-    ((t == 0 /\ r * T == 1 # 2) \/ (0 < t /\ r * T == 1 + t * (w 0 / 2 - 1))) -> rank_case x r
+    ((t == 0 /\ r * T == atm (nthc cs 0) / 2) \/
+     (0 < t /\ r * T == atm (nthc cs 0) + t * (w 0 / 2 - atm (nthc cs 0)))) -> rank_case x r
 | RC_right t : (2 <= n)%nat -> m (n - 1) < x -> x <= v_max v ->
     t * (v_max v - m (n - 1)) == v_max v - x -> 0 <= t -> t < 1 ->
-    ((t == 0 /\ r * T == T - (1 # 2)) \/ (0 < t /\ r * T == T - (1 + t * (w (n - 1) / 2 - 1)))) -> rank_case x r
+    ((t == 0 /\ r * T == T - atm (nthc cs (n - 1)) / 2) \/
+     (0 < t /\ r * T == T - (atm (nthc cs (n - 1)) + t * (w (n - 1) / 2 - atm (nthc cs (n - 1)))))) -> rank_case x r
 | RC_inner l u : (2 <= n)%nat -> (l <= u)%nat -> (u < n)%nat -> m 0 <= x -> x <= m (n - 1) ->
     inner_desc x r l u -> rank_case x r.
 
@@ -128,7 +144,7 @@ Proof.
   apply Nat.eqb_neq in E3. assert (Hn2 : (2 <= n)%nat) by lia.
   destruct (Qltb x (m 0)) eqn:E4; qb E4.
   { (* left tail *)
-    assert (E5 : Qltb 0 (m 0 - v_min v) = true) by (apply Qltb_true; lra). rewrite E5.
+    assert (E5 : Qltb 0 (m 0 - v_min v) = true) by (apply Qltb_true; lra). rewrite E5. cbv zeta. fold (atm (nthc cs 0)).
     eexists; split; [reflexivity|].
     apply (RC_left _ _ ((x - v_min v) / (m 0 - v_min v))); auto.
     - field. lra.
@@ -139,7 +155,7 @@ Proof.
       + right. split; [apply Qlt_shift_div_l; lra|]. field. lra. }
   destruct (Qltb (m (n - 1)) x) eqn:E5; qb E5.
   { (* right tail *)
-    assert (E6 : Qltb 0 (v_max v - m (n - 1)) = true) by (apply Qltb_true; lra). rewrite E6.
+    assert (E6 : Qltb 0 (v_max v - m (n - 1)) = true) by (apply Qltb_true; lra). rewrite E6. cbv zeta. fold (atm (nthc cs (n - 1))).
     eexists; split; [reflexivity|].
     apply (RC_right _ _ ((v_max v - x) / (v_max v - m (n - 1)))); auto.
     - field. lra.
@@ -202,9 +218,11 @@ Proof.
   - rewrite Hr. lra.
   - rewrite Hr. lra.
   - pose proof (T_ge2 Hn2). pose proof (c_w_ge1 (nthc cs 0)). pose proof (w_le_T 0 ltac:(lia)).
+    destruct (atm_bounds (nthc cs 0)) as (S1 & S2 & S3). set (s0 := atm (nthc cs 0)) in *.
     assert (0 <= r * T /\ r * T <= T) as [A B]; [|split; nra].
     destruct Hr as [[_ Hr]|[_ Hr]]; rewrite Hr; q2; split; try lra; nra.
   - pose proof (T_ge2 Hn2). pose proof (c_w_ge1 (nthc cs (n - 1))). pose proof (w_le_T (n - 1) ltac:(lia)).
+    destruct (atm_bounds (nthc cs (n - 1))) as (S1 & S2 & S3). set (s0 := atm (nthc cs (n - 1))) in *.
     assert (0 <= r * T /\ r * T <= T) as [A B]; [|split; nra].
     destruct Hr as [[_ Hr]|[_ Hr]]; rewrite Hr; q2; split; try lra; nra.
   - destruct (inner_bounds x r l u Hlu Hun Hc) as [A B].
@@ -212,31 +230,19 @@ Proof.
 Qed.
 
 (* ---------------- monotonicity ---------------- *)
-Hypothesis Htight : unit_ends_tight v.
-
-Lemma w0_ge2 x : v_min v <= x -> x < m 0 -> 2 <= w 0.
+Lemma left_bounds r t : (2 <= n)%nat -> 0 <= t -> t < 1 ->
+  ((t == 0 /\ r * T == atm (nthc cs 0) / 2) \/ (0 < t /\ r * T == atm (nthc cs 0) + t * (w 0 / 2 - atm (nthc cs 0)))) ->
+  r * T <= C 0.
 Proof.
-  intros H1 H2. apply c_w_ge2. intros E. destruct Htight as [Ht _]. specialize (Ht E).
-  unfold firstc in Ht. lra.
-Qed.
-
-Lemma wl_ge2 x : m (n - 1) < x -> x <= v_max v -> 2 <= w (n - 1).
-Proof.
-  intros H1 H2. apply c_w_ge2. intros E. destruct Htight as [_ Ht]. specialize (Ht E).
-  unfold lastc in Ht. lra.
-Qed.
-
-Lemma left_bounds x r t : (2 <= n)%nat -> v_min v <= x -> x < m 0 -> 0 <= t -> t < 1 ->
-  ((t == 0 /\ r * T == 1 # 2) \/ (0 < t /\ r * T == 1 + t * (w 0 / 2 - 1))) -> r * T <= C 0.
-Proof.
-  intros Hn2 H1 H2 Ht0 Ht1 Hr. pose proof (w0_ge2 x H1 H2). rewrite C0.
+  intros Hn2 Ht0 Ht1 Hr. destruct (atm_bounds (nthc cs 0)) as (S1 & S2 & S3). set (s0 := atm (nthc cs 0)) in *. rewrite C0.
   destruct Hr as [[_ Hr]|[_ Hr]]; rewrite Hr; q2; nra.
 Qed.
 
-Lemma right_bounds x r t : (2 <= n)%nat -> m (n - 1) < x -> x <= v_max v -> 0 <= t -> t < 1 ->
-  ((t == 0 /\ r * T == T - (1 # 2)) \/ (0 < t /\ r * T == T - (1 + t * (w (n - 1) / 2 - 1)))) -> C (n - 1) <= r * T.
+Lemma right_bounds r t : (2 <= n)%nat -> 0 <= t -> t < 1 ->
+  ((t == 0 /\ r * T == T - atm (nthc cs (n - 1)) / 2) \/
+   (0 < t /\ r * T == T - (atm (nthc cs (n - 1)) + t * (w (n - 1) / 2 - atm (nthc cs (n - 1)))))) -> C (n - 1) <= r * T.
 Proof.
-  intros Hn2 H1 H2 Ht0 Ht1 Hr. pose proof (wl_ge2 x H1 H2). rewrite Clast.
+  intros Hn2 Ht0 Ht1 Hr. destruct (atm_bounds (nthc cs (n - 1))) as (S1 & S2 & S3). set (s0 := atm (nthc cs (n - 1))) in *. rewrite Clast.
   destruct Hr as [[_ Hr]|[_ Hr]]; rewrite Hr; q2; nra.
 Qed.
 
@@ -253,24 +259,26 @@ Proof.
   - destruct Hy as [? Hr'|? ? Hr'|? ? ? Hr'|t' ? Y1 Y2 Ht' Ht0' Ht1' Hr'|t' ? Y1 Y2 Ht' Ht0' Ht1' Hr'|l' u' ? Hlu' Hun' Y1 Y2 Hc'];
       try lra; lia.
   - (* x in the left tail *)
-    pose proof (left_bounds x r t Hn2 X1 X2 Ht0 Ht1 Hr) as HB.
+    pose proof (left_bounds r t Hn2 Ht0 Ht1 Hr) as HB.
     destruct Hy as [? Hr'|? ? Hr'|? ? ? Hr'|t' ? Y1 Y2 Ht' Ht0' Ht1' Hr'|t' ? Y1 Y2 Ht' Ht0' Ht1' Hr'|l' u' ? Hlu' Hun' Y1 Y2 Hc'].
     + lra.
     + lra.
     + lia.
-    + apply scale_le. pose proof (w0_ge2 x X1 X2) as Hw. assert (t <= t') by (apply (div_mono t t' (m 0 - v_min v) (x - v_min v) (y - v_min v)); auto; lra).
+    + apply scale_le. destruct (atm_bounds (nthc cs 0)) as (S1 & S2 & S3). set (s0 := atm (nthc cs 0)) in *.
+      assert (t <= t') by (apply (div_mono t t' (m 0 - v_min v) (x - v_min v) (y - v_min v)); auto; lra).
       destruct Hr as [[E Hr]|[E Hr]], Hr' as [[E' Hr']|[E' Hr']]; rewrite Hr, Hr'; q2; try lra; nra.
-    + apply scale_le. pose proof (right_bounds y r' t' Hn2 Y1 Y2 Ht0' Ht1' Hr'). pose proof (C_le 0 (n - 1) ltac:(lia) ltac:(lia)). lra.
+    + apply scale_le. pose proof (right_bounds r' t' Hn2 Ht0' Ht1' Hr'). pose proof (C_le 0 (n - 1) ltac:(lia) ltac:(lia)). lra.
     + apply scale_le. destruct (inner_bounds y r' l' u' Hlu' Hun' Hc') as [A B].
       pose proof (C_le 0 l' ltac:(lia) ltac:(lia)). lra.
   - (* x in the right tail *)
-    pose proof (right_bounds x r t Hn2 X1 X2 Ht0 Ht1 Hr) as HB.
+    pose proof (right_bounds r t Hn2 Ht0 Ht1 Hr) as HB.
     destruct Hy as [? Hr'|? ? Hr'|? ? ? Hr'|t' ? Y1 Y2 Ht' Ht0' Ht1' Hr'|t' ? Y1 Y2 Ht' Ht0' Ht1' Hr'|l' u' ? Hlu' Hun' Y1 Y2 Hc'].
     + lra.
     + lra.
     + lia.
     + lra.
-    + apply scale_le. pose proof (wl_ge2 x X1 X2) as Hw. assert (t' <= t) by (apply (div_mono t' t (v_max v - m (n - 1)) (v_max v - y) (v_max v - x)); auto; lra).
+    + apply scale_le. destruct (atm_bounds (nthc cs (n - 1))) as (S1 & S2 & S3). set (s0 := atm (nthc cs (n - 1))) in *.
+      assert (t' <= t) by (apply (div_mono t' t (v_max v - m (n - 1)) (v_max v - y) (v_max v - x)); auto; lra).
       destruct Hr as [[E Hr]|[E Hr]], Hr' as [[E' Hr']|[E' Hr']]; rewrite Hr, Hr'; q2; try lra; nra.
     + lra.
   - (* x in the interior *)
@@ -280,7 +288,7 @@ Proof.
     + lra.
     + lia.
     + lra.
-    + apply scale_le. pose proof (right_bounds y r' t' Hn2 Y1 Y2 Ht0' Ht1' Hr'). pose proof (C_le u (n - 1) ltac:(lia) ltac:(lia)). lra.
+    + apply scale_le. pose proof (right_bounds r' t' Hn2 Ht0' Ht1' Hr'). pose proof (C_le u (n - 1) ltac:(lia) ltac:(lia)). lra.
     + apply scale_le. destruct (inner_bounds y r' l' u' Hlu' Hun' Hc') as [A' B'].
       destruct (Nat.le_gt_cases u l') as [Hul|Hul].
       { pose proof (C_le u l' Hul ltac:(lia)). lra. }
